@@ -7,6 +7,7 @@ import (
 	"sort"
 	"strconv"
 	"testing"
+	"time"
 
 	"verif/evid"
 	"verif/kit"
@@ -309,6 +310,17 @@ func (s *gSys) checkQueries() error {
 	s.pending = false
 	if acy == m.Cyclic() {
 		return fmt.Errorf("IsAcyclic()=%v but reference cyclic=%v; model: %s", acy, m.Cyclic(), m)
+	}
+	if !acy {
+		// depths are not defined on a cyclic graph and are not judged - but the query has to
+		// return: it holds the graph's write lock while it runs
+		done := make(chan struct{})
+		go func() { defer close(done); g.CalculateDepths() }()
+		select {
+		case <-done:
+		case <-time.After(10 * time.Second):
+			return fmt.Errorf("CalculateDepths() has not returned after 10 s on a cyclic graph (it holds the write lock: every other call blocks); model: %s", m)
+		}
 	}
 	if acy {
 		g.CalculateDepths()
